@@ -15,6 +15,7 @@ from vlib.pdbio import Atom
 from props import c13, c14
 
 PROPERTY = "C01"
+REDUCE_KEYS = ["pdb"]
 LEVEL = "exploration"
 RULE = ("structures (1-4 chains, chain breaks with and without TER, OXT present/absent/not last atom, negative/"
         "gapped/>999/insertion-coded numbering, blank/digit/lower-case chain ids, hetero-first files, library ligands "
